@@ -13,11 +13,12 @@ import (
 // slash is part of the scope: /upload/ does not cover /uploads), every timeout of every `timeouts` line of the site.
 func c17R5(h H) {
 	r := h.r
-	r.Rule("R5", "configured limits as decision tables (E10): parseLimits, evaluated on a `limits` block with body limits for /upload/, /api, a relative path and the default, and a header limit (sizes an oracle), stores each body limit under exactly its written path (rooted, trailing slash kept) and the header limit in the site config; setupTimeouts, evaluated on two `timeouts` blocks of one site, leaves every timeout either block sets in the site config", 2)
+	r.Rule("R5", "configured limits as decision tables (E10): parseLimits, evaluated on two `limits` blocks of one site with body limits for /upload/, /api, a relative path and the default, and a header limit (sizes an oracle), stores each body limit under exactly its written path (rooted, trailing slash kept) and the header limit in the site config; setupTimeouts, evaluated on two `timeouts` blocks of one site, leaves every timeout either block sets in the site config", 2)
 	// ---- limits
 	if fn := h.fn("R5", "caskethttp/limits", "parseLimits"); fn != nil {
 		ctlT := fn.Params[0].Type().(*types.Pointer).Elem()
-		lines := [][]string{{"limits", "{"}, {"body", "/upload/", "1kb"}, {"body", "/api", "2kb"}, {"body", "rel/", "3kb"}, {"body", "5kb"}, {"header", "4kb"}, {"}"}}
+		// two limits directives of one site (a shared snippet and the site's own, say)
+		lines := [][]string{{"limits", "{"}, {"body", "/upload/", "1kb"}, {"body", "/api", "2kb"}, {"}"}, {"limits", "{"}, {"body", "rel/", "3kb"}, {"body", "5kb"}, {"header", "4kb"}, {"}"}}
 		sizes := map[string]int64{"1kb": 1024, "2kb": 2048, "3kb": 3072, "5kb": 5120, "4kb": 4096}
 		want := map[string]int64{"/upload/": 1024, "/api": 2048, "/rel/": 3072, "/": 5120}
 		c := mkController(ctlT, lines)
@@ -50,7 +51,7 @@ func c17R5(h H) {
 				return nil, false
 			}
 			res, und := env.run(fn, []aval{aptr{c, ""}})
-			text := "`limits { body /upload/ 1kb ⏎ body /api 2kb ⏎ body rel/ 3kb ⏎ body 5kb ⏎ header 4kb }`"
+			text := "`limits { body /upload/ 1kb ⏎ body /api 2kb } ⏎ limits { body rel/ 3kb ⏎ body 5kb ⏎ header 4kb }`"
 			tp, ok := res.(atuple)
 			switch {
 			case und != "":
